@@ -22,11 +22,13 @@ Br(c, body) == [c |-> c, body |-> body, ln |-> 1]
 CondData == <<[n |-> "ti", v |-> I(3)], [n |-> "fi", v |-> I(0)], [n |-> "tf", v |-> F(1, 1)], [n |-> "ff", v |-> F(0, 0)],
               [n |-> "ts", v |-> S("a")], [n |-> "fs", v |-> S("")], [n |-> "nn", v |-> Nil],
               [n |-> "ea", v |-> A(<<>>)], [n |-> "eo", v |-> O(<<>>)], [n |-> "tb", v |-> B(TRUE)], [n |-> "fb", v |-> B(FALSE)],
-              [n |-> "ar", v |-> A(<<I(1), I(2), I(3)>>)]>>
+              [n |-> "ar", v |-> A(<<I(1), I(2), I(3)>>)], [n |-> "tn", v |-> NaN], [n |-> "tq", v |-> NInf], [n |-> "fz", v |-> NZero]>>
 Truthies == {BoolL(TRUE), IntL(1), FloatL(1, 1), StrL("a"), ArrL(<<>>), ArrL(<<IntL(0)>>), ObjL(<<>>),
-             Var("ti"), Var("tf"), Var("ts"), Var("ea"), Var("eo"), Var("tb"), Pre("-", IntL(1)), StrL("0"), StrL(" ")}
+             Var("ti"), Var("tf"), Var("ts"), Var("ea"), Var("eo"), Var("tb"), Pre("-", IntL(1)), StrL("0"), StrL(" "),
+             \* NaN and the infinities are not zero
+             Var("tn"), Var("tq"), Bin("/", FloatL(0, 0), FloatL(0, 0)), Bin("/", FloatL(1, 0), FloatL(0, 0))}
 Falsies  == {BoolL(FALSE), NilL, IntL(0), FloatL(0, 0), StrL(""), Var("fi"), Var("ff"), Var("fs"), Var("nn"), Var("fb"),
-             Bin("-", IntL(1), IntL(1))}
+             Bin("-", IntL(1), IntL(1)), Var("fz"), Pre("-", FloatL(0, 0))}     \* -0.0 is zero
 Raisers  == {Var("zz"), Bin("/", IntL(1), IntL(0)), Bin("%", IntL(1), IntL(0)), Bin("+", IntL(1), StrL("a"))}
 \* a small set that still has every class, for the chain products
 CondsSmall == {BoolL(TRUE), ArrL(<<>>), Var("tf"), BoolL(FALSE), StrL(""), Var("nn"), Var("zz"), Bin("%", IntL(1), IntL(0))}
